@@ -208,7 +208,8 @@ parameter standing for strconv.ParseFloat and strconv's shortest digits; the str
 theorem names the law it needs as a hypothesis.  All statements are for ALL byte strings / ALL trees. -/
 
 section Canonicalize
-open JsonV.Canon JsonV.Fmt JsonV.Model.Quote JsonV.Spec.StringSpec
+open JsonV.Canon JsonV.Model.Quote JsonV.Spec.StringSpec
+open JsonV.Fmt hiding strOK respell
 open JsonV.Lemmas.CanonTree JsonV.Lemmas.CanonAtom JsonV.Lemmas.CanonSort JsonV.Lemmas.CanonForm JsonV.Lemmas.CanonParse
 open JsonV.Lemmas.CanonRound JsonV.Lemmas.CanonLex JsonV.Lemmas.CanonNest
 open JsonV.Props.C10Glue JsonV.Lemmas.NumFloat
